@@ -9,12 +9,18 @@
 //! `class`, `entry`), `ha.stx` (`ExtendedStateTable::<T>::read`, `class`, `entry` for payload sizes
 //! 0 / 1 / 2 / 4 / 6 and the native `u16` payload), `ha.sentry` (`StateEntry::<T>::read`), `ha.ankr`
 //! (`Ankr::anchor_points`), `ha.feat` (`Feat::find`, `FeatureName::{is_exclusive,
-//! default_setting_index}`), `ha.ltag` (`Ltag::{tag_indices, index_for_tag}`).
+//! default_setting_index}`), `ha.ltag` (`Ltag::{tag_indices, index_for_tag}`), `ha.f1`
+//! (`PatchMapFormat1::{entry_count, uri_template_as_string, glyph_map, gid_to_entry_iter,
+//! is_entry_applied, feature_map}` + `FeatureMap::entry_records_size`), `ha.fm` (`FeatureMap::read` +
+//! `entry_records_size` with independent arguments), `ha.gp` (`GlyphPatches::glyph_data_for_table` /
+//! `GlyphDataIterator`), `ha.cid` (`CompatibilityId::from_u32s`), `ha.u8or16`.
 use super::aat::{gen_lookup, gen_state_table, gen_stx, LkMode, LK_FORMATS, LK_MODES, ST_MODES};
 use super::*;
 use font_types::{BigEndian, GlyphId, GlyphId16};
 use read_fonts::tables::aat::{ExtendedStateTable, ExtendedStateTableU16, Lookup, LookupSegment4, LookupU16, LookupU32, NoPayload, StateEntry, StateTable};
 use read_fonts::tables::ankr::Ankr;
+use read_fonts::tables::ift::{CompatibilityId, FeatureMap, GlyphKeyedFlags, GlyphPatches, PatchMapFormat1, U8Or16};
+use read_fonts::{ComputeSize, FontReadWithArgs};
 use read_fonts::tables::feat::Feat;
 use read_fonts::tables::ltag::Ltag;
 use read_fonts::{FontData, FontRead, ReadError};
@@ -68,8 +74,10 @@ fn ask(ctx: &mut Ctx, req: String, bytes: &[u8], f: impl FnOnce() -> String) -> 
         cur.1.clear();
         cur.1.extend_from_slice(bytes);
     }
+    let cmd = req.split(' ').next().unwrap_or("").to_string();
     match catch(f) {
         Ok(s) => {
+            ctx.count(&format!("cases.{cmd}"));
             ctx.oracle("no-panic", true, String::new, String::new);
             ctx.case(req, s.clone());
             Some(s)
@@ -229,10 +237,12 @@ fn lookup_case(ctx: &mut Ctx, bytes: &[u8], wide: bool, typed: bool) {
 
 fn run_lookups(ctx: &mut Ctx) {
     let rounds = if ctx.thorough { 5 } else { 1 };
+    let mut alt = 0usize;
     for round in 0..rounds {
         for &format in &LK_FORMATS {
             for &mode in &LK_MODES {
-                for wide in [false, true] {
+                alt += 1;
+                for wide in [alt % 2 == 0] {
                     let vsize = if format == 10 { *ctx.rng.pick(&[1usize, 2, 4, 4, 2, 0, 3, 8]) } else if wide { 4 } else { 2 };
                     let (b, _) = gen_lookup(&mut ctx.rng, format, vsize, mode, &[]);
                     ctx.count("lk.bases");
@@ -408,7 +418,7 @@ fn st_case(ctx: &mut Ctx, bytes: &[u8]) {
 }
 
 fn run_state(ctx: &mut Ctx) {
-    let rounds = if ctx.thorough { 12 } else { 3 };
+    let rounds = if ctx.thorough { 10 } else { 2 };
     for _ in 0..rounds {
         for &mode in &ST_MODES {
             let extra = if ctx.rng.chance(1, 2) { 2 } else { 0 };
@@ -605,9 +615,11 @@ fn stx_case(ctx: &mut Ctx, bytes: &[u8], ps: usize, native: bool) {
 
 fn run_stx(ctx: &mut Ctx) {
     let rounds = if ctx.thorough { 5 } else { 1 };
+    let mut rot = 0usize;
     for round in 0..rounds {
         for &mode in &ST_MODES {
-            for ps in [0usize, 1, 2, 4, 6] {
+            rot += 1;
+            for ps in [[0usize, 2, 6], [1, 4, 2], [0, 6, 4], [2, 1, 0], [4, 6, 1]][rot % 5] {
                 let extra = if ctx.rng.chance(1, 2) { 4 } else { 0 };
                 let g = gen_stx(&mut ctx.rng, mode, ps, extra, 8);
                 ctx.count(&format!("stx.bases.ps{ps}"));
@@ -1082,9 +1094,482 @@ fn run_misc(ctx: &mut Ctx) {
     }
 }
 
+// ------------------------------------------------------------------------------------------------
+// IFT (generators after hand/ift.rs)
+
+const MAX_ENTRY_INDEXES: [u16; 8] = [0, 1, 7, 8, 255, 256, 257, 0xFFFF];
+
+struct F1Spec {
+    max_entry_index: u16,
+    glyph_count: u32,
+    first_mapped: u16,
+    entries: Vec<u16>,
+    feature_map: bool,
+    field_flags: u8,
+}
+
+fn put_id(b: &mut B, wide: bool, v: u16) {
+    if wide {
+        b.u16(v);
+    } else {
+        b.u8(v as u8);
+    }
+}
+
+fn format1(rng: &mut Rng, s: &F1Spec) -> B {
+    let wide = s.max_entry_index >= 256;
+    let mut b = B::new();
+    b.f8(1).u8(0).u8(0).u8(0).f8(s.field_flags);
+    b.bytes(&rng.bytes(16));
+    b.f16(s.max_entry_index).f16(s.max_entry_index.min(rng.below(300) as u16));
+    b.f24(s.glyph_count);
+    let gm_at = b.len();
+    b.f32(0);
+    let fm_at = b.len();
+    b.f32(0);
+    let bitmap_len = s.max_entry_index as usize / 8 + 1;
+    let mut bitmap = rng.bytes(bitmap_len);
+    if rng.chance(1, 3) {
+        bitmap.fill(0xFF);
+    }
+    b.bytes(&bitmap);
+    let uri: &[u8] = match rng.below(5) {
+        0 => b"",
+        1 => b"//foo.bar/{id}",
+        2 => b"\xFF\xFE{id}",
+        3 => "//\u{e9}\u{20ac}/{id}".as_bytes(),
+        _ => b"a",
+    };
+    b.f16(uri.len() as u16);
+    b.bytes(uri);
+    b.u8(rng.below(4) as u8);
+    if s.field_flags & 1 != 0 {
+        b.u32(rng.next() as u32);
+    }
+    if s.field_flags & 2 != 0 {
+        b.u32(rng.next() as u32);
+    }
+    let at = b.len();
+    b.set32(gm_at, at as u32);
+    b.f16(s.first_mapped);
+    for e in &s.entries {
+        put_id(&mut b, wide, *e);
+    }
+    if s.feature_map {
+        let at = b.len();
+        b.set32(fm_at, at as u32);
+        let n = rng.below(4) as u16;
+        b.f16(n);
+        let mut counts = vec![];
+        for k in 0..n {
+            b.tag(&[b'l', b'i', b'g', b'a' + k as u8]);
+            put_id(&mut b, wide, rng.below(s.max_entry_index as u64 + 1) as u16);
+            let c = match rng.below(6) {
+                0 => 0xFFFF,
+                c => c as u16 % 3,
+            };
+            counts.push((c as usize).min(3));
+            put_id(&mut b, wide, c);
+        }
+        for c in counts {
+            for _ in 0..c {
+                put_id(&mut b, wide, rng.below(s.max_entry_index as u64 + 1) as u16);
+                put_id(&mut b, wide, rng.below(s.max_entry_index as u64 + 1) as u16);
+            }
+        }
+        if rng.chance(1, 3) {
+            let n = 1 + rng.below(3) as usize;
+            b.bytes(&rng.bytes(n));
+        }
+    }
+    b
+}
+
+fn f1_spec(rng: &mut Rng, mei: u16) -> F1Spec {
+    let glyph_count = match rng.below(8) {
+        0 => 0,
+        1 => 1,
+        _ => 2 + rng.below(10) as u32,
+    };
+    let first_mapped = match rng.below(8) {
+        0 => glyph_count as u16,
+        1 => glyph_count as u16 + 1,
+        2 => 0,
+        3 => 0xFFFF,
+        _ => rng.below(glyph_count as u64 + 1) as u16,
+    };
+    let mut n = (glyph_count as usize).saturating_sub(first_mapped as usize);
+    match rng.below(10) {
+        0 => n += 1,
+        1 => n = n.saturating_sub(1),
+        _ => {}
+    }
+    let entries = (0..n).map(|_| if rng.chance(1, 3) { 0 } else { rng.below(mei as u64 + 1) as u16 }).collect();
+    F1Spec { max_entry_index: mei, glyph_count, first_mapped, entries, feature_map: rng.chance(2, 3), field_flags: rng.below(4) as u8 | if rng.chance(1, 8) { 0x80 } else { 0 } }
+}
+
+fn ers_str(fm: &FeatureMap, arg: u16) -> String {
+    fm.entry_records_size(arg).map(|v| v.to_string()).unwrap_or_else(|e| err_str(&e))
+}
+
+fn f1_case(ctx: &mut Ctx, bytes: &[u8]) {
+    let mei = w16(bytes, 21);
+    let ixs = cap(&mut ctx.rng, edge16(&[mei, (mei / 8 + 1) * 8, (mei / 8) * 8, 7, 8, 9, 15, 16]), 24);
+    let req = format!("ha.f1 {} | {}", hex(bytes), join(&ixs));
+    let len = bytes.len();
+    let mut bounded = true;
+    let mut in_range = true;
+    let mut labels: Vec<String> = vec![];
+    let resp = ask(ctx, req, bytes, || match PatchMapFormat1::read(FontData::new(bytes)) {
+        Err(_) => "err".into(),
+        Ok(t) => {
+            let gc = t.glyph_count().to_u32();
+            let uri = t.uri_template_as_string().is_ok();
+            labels.push(format!("f1.uri.{}", if uri { "utf8" } else { "invalid" }));
+            let gm = t.glyph_map();
+            let (gms, first) = match &gm {
+                Ok(g) => {
+                    let size = U8Or16::compute_size(&t.max_entry_index()).unwrap();
+                    labels.push("f1.glyph-map.ok".into());
+                    (format!("{}:{}", g.first_mapped_glyph(), g.entry_index().len() * size), g.first_mapped_glyph() as u32)
+                }
+                Err(e) => {
+                    labels.push(format!("f1.glyph-map.{}", err_str(e)));
+                    (err_str(e), 0)
+                }
+            };
+            let mut xs: Vec<u64> = vec![];
+            let mut n = 0usize;
+            let mut last = "-".to_string();
+            let mut prev: Option<u32> = None;
+            for (g, e) in t.gid_to_entry_iter() {
+                n += 1;
+                if n > len + 1 {
+                    bounded = false;
+                    break;
+                }
+                let g = g.to_u32();
+                in_range &= e > 0 && g >= first && g < gc && prev.map(|p| p < g).unwrap_or(true);
+                prev = Some(g);
+                xs.extend([g as u64, e as u64]);
+                last = format!("{g}:{e}");
+            }
+            if gm.is_ok() {
+                let mapped = gc.saturating_sub(first) as usize;
+                labels.push(format!("f1.iter.{}", if mapped == 0 { "no-mapped-glyph" } else if n == 0 { "all-entries-zero" } else if n < mapped { "some-entries-zero" } else { "all-yielded" }));
+            }
+            let bits: String = ixs.iter().map(|i| if t.is_entry_applied(*i) { '1' } else { '0' }).collect();
+            let fm = match t.feature_map() {
+                None => {
+                    labels.push("f1.feature-map.none".into());
+                    "none".to_string()
+                }
+                Some(Err(e)) => {
+                    labels.push(format!("f1.feature-map.{}", err_str(&e)));
+                    err_str(&e)
+                }
+                Some(Ok(fm)) => {
+                    labels.push("f1.feature-map.ok".into());
+                    [t.max_entry_index(), 0, 255, 256, 65535].iter().map(|a| ers_str(&fm, *a)).collect::<Vec<_>>().join(",")
+                }
+            };
+            format!("{} {} | {} | {} {} {} | {} | {}", t.entry_count(), uri as u8, gms, n, fnv(&xs), last, if bits.is_empty() { "-".into() } else { bits }, fm)
+        }
+    });
+    if let Some(resp) = resp {
+        ctx.oracle("f1.iter-bounded", bounded, || hex(bytes), || "gid_to_entry_iter yields more items than the table has bytes".into());
+        ctx.oracle("f1.iter-items-in-range", in_range, || hex(bytes), || "gid_to_entry_iter: zero entry, glyph outside first_mapped_glyph..glyph_count, or not ascending".into());
+        if resp == "err" {
+            ctx.count("f1.read-err");
+        }
+        labels.sort();
+        labels.dedup();
+        for l in labels {
+            ctx.count(&l);
+        }
+    }
+}
+
+/// `[max_entry_index u16][feature map]`: `FeatureMap::read` with several own arguments,
+/// `entry_records_size` with several arguments
+fn fm_case(ctx: &mut Ctx, bytes: &[u8]) {
+    let Some(mei) = rd(bytes, 0, 2) else { return };
+    let data = &bytes[2..];
+    let mut owns = vec![mei as u16, 0, 256];
+    owns.dedup();
+    for own in owns {
+        let args = [own, 0, 255, 256, 0xFFFF];
+        let req = format!("ha.fm {} {} | {}", own, hex(data), join(&args));
+        let mut sum_ok = true;
+        let resp = ask(ctx, req, data, || match FeatureMap::read(FontData::new(data), own) {
+            Err(e) => err_str(&e),
+            Ok(fm) => {
+                // reference: Σ count · width · 2 over the records
+                let mut want: [usize; 5] = [0; 5];
+                let mut all_ok = true;
+                for r in fm.feature_records().iter() {
+                    match r {
+                        Ok(r) => {
+                            for (k, a) in args.iter().enumerate() {
+                                want[k] += r.entry_map_count().get() as usize * if *a < 256 { 2 } else { 4 };
+                            }
+                        }
+                        Err(_) => all_ok = false,
+                    }
+                }
+                let got: Vec<String> = args.iter().map(|a| ers_str(&fm, *a)).collect();
+                if all_ok {
+                    sum_ok &= got.iter().zip(want.iter()).all(|(g, w)| *g == w.to_string());
+                }
+                format!("{} | {}", fm.feature_count(), join(&got))
+            }
+        });
+        if let Some(resp) = resp {
+            ctx.oracle("fm.entry-records-size-is-sum", sum_ok, || format!("own={own} {}", hex(data)), || resp.clone());
+            ctx.count(if resp.starts_with('e') { "fm.read-err" } else if resp.starts_with("0 ") { "fm.no-records" } else { "fm.records" });
+        }
+    }
+}
+
+struct GkSpec {
+    wide: bool,
+    gids: Vec<u32>,
+    n_tables: u8,
+}
+
+fn glyph_patches(rng: &mut Rng, s: &GkSpec) -> B {
+    let mut b = B::new();
+    b.f32(s.gids.len() as u32).f8(s.n_tables);
+    for g in &s.gids {
+        if s.wide {
+            b.u24(*g);
+        } else {
+            b.u16(*g as u16);
+        }
+    }
+    for k in 0..s.n_tables {
+        b.tag(&[b'g', b'l', b'y', b'a' + k % 26]);
+    }
+    let n_off = s.gids.len() * s.n_tables as usize + 1;
+    let offs = b.len();
+    for _ in 0..n_off {
+        b.f32(0);
+    }
+    let mut k = 0;
+    for _ in 0..s.n_tables {
+        for _ in 0..s.gids.len() {
+            let d = rbytes(rng, 5);
+            let at = b.len();
+            b.set32(offs + 4 * k, at as u32);
+            b.bytes(&d);
+            k += 1;
+        }
+    }
+    let at = b.len();
+    b.set32(offs + 4 * k, at as u32);
+    b
+}
+
+fn gp_case(ctx: &mut Ctx, bytes: &[u8], wide: bool) {
+    let gc = w32(bytes, 0) as usize;
+    let tc = rd(bytes, 4, 1).unwrap_or(0) as usize;
+    let mut tis: Vec<usize> = vec![0, 1, 2, tc, tc.saturating_sub(1), tc + 1, gc, gc.saturating_mul(tc), 0xFFFF_FFFF, 1 << 33, usize::MAX / 2, usize::MAX / 2 + 1, usize::MAX / 3 + 1, usize::MAX - 1, usize::MAX];
+    tis.sort();
+    tis.dedup();
+    let req = format!("ha.gp {} {} | {}", wide as u8, hex(bytes), join(&tis));
+    let len = bytes.len();
+    let mut bounded = true;
+    let mut inside_ok = true;
+    let mut after_err = false;
+    let mut labels: Vec<String> = vec![];
+    let resp = ask(ctx, req, bytes, || match GlyphPatches::read(FontData::new(bytes), GlyphKeyedFlags::from_bits_truncate(wide as u8)) {
+        Err(_) => "err".into(),
+        Ok(t) => {
+            let gc = t.glyph_count() as usize;
+            join(
+                &tis.iter()
+                    .map(|ti| {
+                        let mut xs: Vec<u64> = vec![];
+                        let mut n = 0usize;
+                        let mut last = "-".to_string();
+                        let mut failed = false;
+                        for r in t.glyph_data_for_table(*ti) {
+                            n += 1;
+                            if n > gc.min(len / 2) + 1 {
+                                bounded = false;
+                                break;
+                            }
+                            after_err |= failed;
+                            match r {
+                                Ok((g, d)) => {
+                                    inside_ok &= inside(d, bytes);
+                                    let st = (d.as_ptr() as usize).wrapping_sub(bytes.as_ptr() as usize);
+                                    xs.extend([1, g.to_u32() as u64, st as u64, d.len() as u64]);
+                                    last = format!("{}.{}.{}", g.to_u32(), st, d.len());
+                                    labels.push("gp.item.ok".into());
+                                }
+                                Err(e) => {
+                                    failed = true;
+                                    let (code, l) = match &e {
+                                        ReadError::OutOfBounds => (vec![2u64, 1], "eO".to_string()),
+                                        ReadError::NullOffset => (vec![2, 2], "eN".to_string()),
+                                        ReadError::MalformedData(m) => (vec![2, 3], format!("eM.{}", if m.contains("unsorted") { "gids" } else { "offsets" })),
+                                        other => (vec![2, 9], format!("{other:?}")),
+                                    };
+                                    xs.extend(code);
+                                    last = err_str(&e);
+                                    labels.push(format!("gp.item.{l}"));
+                                }
+                            }
+                        }
+                        labels.push(format!("gp.table.{}", if n == 0 { "empty" } else if failed { "ends-with-error" } else if n == gc { "all-glyphs" } else { "short" }));
+                        format!("{}:{}:{}", n, fnv(&xs), last)
+                    })
+                    .collect::<Vec<_>>(),
+            )
+        }
+    });
+    if let Some(resp) = resp {
+        ctx.oracle("gp.iter-bounded", bounded, || format!("wide={wide} {}", hex(bytes)), || "glyph_data_for_table yields more than glyph_count / len/2 items".into());
+        ctx.oracle("gp.data-inside-table", inside_ok, || format!("wide={wide} {}", hex(bytes)), || "glyph data slice outside the table".into());
+        ctx.oracle("gp.nothing-after-error", !after_err, || format!("wide={wide} {}", hex(bytes)), || "an item follows an Err item".into());
+        if resp == "err" {
+            ctx.count("gp.read-err");
+        }
+        labels.sort();
+        labels.dedup();
+        for l in labels {
+            ctx.count(&l);
+        }
+    }
+}
+
+fn run_ift(ctx: &mut Ctx) {
+    let rounds = if ctx.thorough { 80 } else { 16 };
+    for round in 0..rounds {
+        let mei = MAX_ENTRY_INDEXES[round % MAX_ENTRY_INDEXES.len()];
+        if mei == 0xFFFF && round >= 8 && !ctx.thorough {
+            continue;
+        }
+        let spec = f1_spec(&mut ctx.rng, mei);
+        let b = format1(&mut ctx.rng, &spec);
+        ctx.count("f1.bases");
+        if b.v.len() > 600 {
+            // max_entry_index 0xFFFF: an 8 KiB bitmap — the base, field values and a few cuts only
+            f1_case(ctx, &b.v);
+            for c in [0usize, 5, 22, 23, 36, 40, b.v.len() - 1, b.v.len() - 2] {
+                f1_case(ctx, &b.v[..c]);
+            }
+            continue;
+        }
+        for v in variants(&mut ctx.rng, &b, 4) {
+            f1_case(ctx, &v);
+        }
+    }
+    // feature maps with independent arguments
+    for round in 0..if ctx.thorough { 60 } else { 12 } {
+        let mei = MAX_ENTRY_INDEXES[round % MAX_ENTRY_INDEXES.len()];
+        let wide = mei >= 256;
+        let mut b = B::new();
+        b.f16(mei);
+        let n = ctx.rng.below(4) as u16;
+        b.f16(n);
+        let mut total = 0;
+        for _ in 0..n {
+            b.tag(b"liga");
+            put_id(&mut b, wide, 1);
+            let c = match ctx.rng.below(5) {
+                0 => 0xFFFF,
+                c => c as u16,
+            };
+            total += (c as usize).min(6);
+            put_id(&mut b, wide, c);
+        }
+        for _ in 0..total {
+            put_id(&mut b, wide, ctx.rng.below(9) as u16);
+            put_id(&mut b, wide, ctx.rng.below(9) as u16);
+        }
+        ctx.count("fm.bases");
+        for v in variants(&mut ctx.rng, &b, 3) {
+            fm_case(ctx, &v);
+        }
+    }
+    // glyph keyed patches
+    for round in 0..if ctx.thorough { 100 } else { 21 } {
+        let wide = round % 2 == 1;
+        let n = match round % 7 {
+            0 => 0,
+            1 => 1,
+            _ => 1 + ctx.rng.below(5) as usize,
+        };
+        let mut gids: Vec<u32> = vec![];
+        let mut g = 0u32;
+        for _ in 0..n {
+            g += 1 + ctx.rng.below(if wide { 70000 } else { 300 }) as u32;
+            gids.push(g);
+        }
+        match round % 5 {
+            3 if n > 1 => gids[n - 1] = gids[0],
+            4 if n > 1 => gids.reverse(),
+            _ => {}
+        }
+        let spec = GkSpec { wide, gids, n_tables: (round % 4) as u8 };
+        let mut b = glyph_patches(&mut ctx.rng, &spec);
+        // descending / null / beyond-the-end glyph data offsets
+        if round % 3 == 2 && n > 0 && spec.n_tables > 0 {
+            let offs = 5 + n * if wide { 3 } else { 2 } + 4 * spec.n_tables as usize;
+            let k = ctx.rng.below((n * spec.n_tables as usize + 1) as u64) as usize;
+            let l = b.v.len() as u32;
+            let v = *ctx.rng.pick(&[0u32, 1, l, l + 1, l - 1, 0xFFFF_FFFF]);
+            b.set32(offs + 4 * k, v);
+        }
+        ctx.count(if wide { "gp.bases.wide" } else { "gp.bases.narrow" });
+        for (k, v) in variants(&mut ctx.rng, &b, 4).iter().enumerate() {
+            gp_case(ctx, v, wide ^ (k % 16 == 15));
+        }
+    }
+    // counts whose products overflow: glyph_count × table_count, × 4, × 3
+    for gc in [0x4000_0000u32, 0x5555_5556, 0x7FFF_FFFF, 0x8000_0000, 0xFFFF_FFFF, 0x0101_0102] {
+        for tc in [0u8, 1, 2, 4, 255] {
+            let mut b = B::new();
+            b.u32(gc).u8(tc);
+            b.zeros(40);
+            gp_case(ctx, &b.v, gc % 2 == 0);
+        }
+    }
+    // CompatibilityId::from_u32s, U8Or16
+    let mut quads: Vec<[u32; 4]> = vec![[0; 4], [u32::MAX; 4], [1, 2, 3, 4], [0x0102_0304, 0x0506_0708, 0x090A_0B0C, 0x0D0E_0F10], [0x8000_0000, 0x7FFF_FFFF, 0xFF, 0xFF00]];
+    for _ in 0..24 {
+        quads.push([ctx.rng.next() as u32, ctx.rng.next() as u32, ctx.rng.next() as u32, ctx.rng.next() as u32]);
+    }
+    for q in quads {
+        let req = format!("ha.cid {} {} {} {}", q[0], q[1], q[2], q[3]);
+        let r = ask(ctx, req, &[], || hex(CompatibilityId::from_u32s(q).as_slice()));
+        if let Some(r) = r {
+            let mut want = vec![];
+            for v in q {
+                want.extend(v.to_be_bytes());
+            }
+            ctx.oracle("cid.big-endian-words", r == hex(&want), || format!("{q:?}"), || r.clone());
+            ctx.count("cid");
+        }
+    }
+    for n in 0..4usize {
+        for _ in 0..4 {
+            let v = ctx.rng.bytes(n);
+            for mei in [0u16, 1, 254, 255, 256, 257, 0xFFFF] {
+                let req = format!("ha.u8or16 {} {}", mei, hex(&v));
+                ask(ctx, req, &v, || format!("{} {}", U8Or16::compute_size(&mei).unwrap(), U8Or16::read_with_args(FontData::new(&v), &mei).map(|x| x.get().to_string()).unwrap_or_else(|e| err_str(&e))));
+                ctx.count("u8or16");
+            }
+        }
+    }
+}
+
 pub fn run(ctx: &mut Ctx) {
     run_lookups(ctx);
     run_state(ctx);
     run_stx(ctx);
     run_misc(ctx);
+    run_ift(ctx);
 }
